@@ -63,6 +63,7 @@ type Spec struct {
 	Stubs         []string            `json:"stubs"`
 	NoopPkgs      []string            `json:"noop_pkgs"`
 	FuncStubs     []FuncStub          `json:"func_stubs"` // see natives_trust1.go
+	MergeFuncs    []string            `json:"merge_funcs"` // see merge.go
 	Level         string              `json:"level"`
 }
 
@@ -473,6 +474,10 @@ func loadEngine(spec *Spec) (*Engine, error) {
 		"github.com/opentracing/opentracing-go",
 		"go.uber.org/zap",
 	}, spec.NoopPkgs...)
+	e.mergeFns = map[string]bool{}
+	for _, f := range spec.MergeFuncs {
+		e.mergeFns[f] = true
+	}
 	e.errString = prog.ImportedPackage("errors").Type("errorString").Type()
 	registerNatives(e)
 	registerFuncStubs(e, spec)
